@@ -8,7 +8,7 @@ import smegen
 import vlib
 
 # as-is defects of the tree the specification currently describes (empty once every repair is committed)
-DEFECTS = ["proposalNoReturn", "emptyFormatPanic", "approveNoCheck", "closeBypassOnce", "onceReentrance"]
+DEFECTS = []
 
 
 def cfg_dict(name, pair, role="server", paired=False, auto=False, wait=True, stored="none", storedC="none", timely=True):
@@ -23,18 +23,27 @@ def model_check(specdir, name, timeout=1500, workers="auto"):
     return r
 
 
-def generate(specdir, name, cfgd, simulate=None, depth=None, tlc_seed=None, timeout=900):
+def generate(specdir, name, cfgd, simulate=None, depth=None, tlc_seed=None, timeout=900, workers=1):
     """runs an emission configuration and returns the behaviours TLC printed (list of step lists)"""
-    r = vlib.tlc(specdir, name, workers=1, timeout=timeout, simulate=simulate, depth=depth, tlc_seed=tlc_seed)
+    r = vlib.tlc(specdir, name, workers=workers, timeout=timeout, simulate=simulate, depth=depth, tlc_seed=tlc_seed)
     if r["error"]:
         raise vlib.Infra("TLC error while generating from %s: %s\n%s" % (name, r["error"], r["tail"]))
     tests = []
     seen = set()
-    for steps in vlib.tlc_lines(r["out_path"], "TEST"):
-        key = json.dumps([s["a"] for s in steps])
+    for rec in vlib.tlc_lines(r["out_path"], "TEST"):
+        steps = rec["h"]
+        if "l" in rec:
+            steps[-1]["x"], steps[-1]["n"] = rec["l"]["x"], rec["l"]["n"]
+        if simulate is not None:
+            # the simulator evaluates the emission constraint on every successor of the last state: all of them are
+            # behaviours of the specification; keep one per simulated behaviour
+            key = json.dumps([s["a"] for s in steps[:-1]])
+        else:
+            key = json.dumps([s["a"] for s in steps])
         if key in seen:
             continue
         seen.add(key)
+        steps = [s for s in steps if s["a"]["a"] != "Nop"]
         tests.append(dict(cfg=cfgd, steps=steps))
     os.remove(r["out_path"])
     return tests, r
@@ -58,7 +67,7 @@ def drop_prefixes(tests):
     return out
 
 
-def replay(scratch, binp, tests, tag, par=1024, timeout=3000):
+def replay(scratch, binp, tests, tag, par=8192, timeout=3000):
     tp = os.path.join(scratch, "tests-%s.ndjson" % tag)
     with open(tp, "w") as f:
         for i, t in enumerate(tests):
